@@ -473,15 +473,27 @@ func checkC02(res *Result) {
 	}
 	res.Count("C02-R10 range-over-slice loops on the delivery path", nRange, 5)
 	// R6
-	if f := p.MustFunc(res, "C02-R6", "sideEffectActor.deliverToRecipients"); f != nil {
+	nHand := 0
+	for _, cname := range []string{"sideEffectActor.deliverToRecipients", "sideEffectActor.Deliver", "sideEffectActor.InboxForwarding"} {
+		f := p.Func(cname)
+		if f == nil || !p.HasFunc(cname) {
+			continue
+		}
 		bd := findCalls(E, f, "Transport.BatchDeliver")
+		if len(bd) == 0 && cname != "sideEffectActor.deliverToRecipients" {
+			continue // this path hands over through the helper
+		}
+		nHand += len(bd)
 		res.check(len(bd) == 1, "C02-R6", fname(f), p.pos(f), "exactly one BatchDeliver call", fmt.Sprintf("%d calls", len(bd)))
 		for _, c := range bd {
 			res.check(!inLoop(c), "C02-R6", fname(f), p.pos(c), "the payload is handed over once (not in a loop)", "BatchDeliver sits in a loop")
-			res.check(isParamNamed(c.Common().Args[2], "recipients"), "C02-R6", fname(f), p.pos(c), "all prepared inboxes are handed over together", "recipients argument is "+valueLabel(c.Common().Args[2]))
+			if cname == "sideEffectActor.deliverToRecipients" {
+				res.check(isParamNamed(c.Common().Args[2], "recipients"), "C02-R6", fname(f), p.pos(c), "all prepared inboxes are handed over together", "recipients argument is "+valueLabel(c.Common().Args[2]))
+			}
 		}
 		res.check(len(findCalls(E, f, "Transport.Deliver")) == 0, "C02-R6", fname(f), p.pos(f), "no per-recipient Deliver besides the batch", "Transport.Deliver is also called")
 	}
+	res.check(nHand >= 1, "C02-R6", "pub", "-", "a BatchDeliver hand-over exists on the delivery paths", "none found")
 	// R7
 	checkWhoMayDeliver(res, p, E, "C02-R7")
 	// R8
